@@ -202,6 +202,12 @@ impl<OT: OtSender<Msg = Block> + SemiHonest> OtReceiver for Receiver<OT> {
         for _ in 0..128 {
             rng.fill_bytes(k0.as_mut());
             rng.fill_bytes(k1.as_mut());
+            // tap: the party's own base-OT seed pairs (identity unless armed)
+            #[cfg(feature = "__verif")]
+            {
+                crate::verif::tap_bytes("alsz.base_seed", 2 * ks.len(), k0.as_mut());
+                crate::verif::tap_bytes("alsz.base_seed", 2 * ks.len() + 1, k1.as_mut());
+            }
             ks.push((k0, k1));
         }
         ot.send(channel, &ks, rng, p_to, shared_rand).await?;
